@@ -66,6 +66,13 @@ pub fn count(name: &str) {
     }
 }
 
+/// Increment named event counter and its per-thread twin `<name>@<thread id>`, so that a monitor can tell
+/// that every worker thread (not just some of them) passed the hook
+pub fn count_per_thread(name: &str) {
+    count(name);
+    count(&format!("{}@{:?}", name, std::thread::current().id()));
+}
+
 /// Read named event counter
 pub fn counter(name: &str) -> u64 {
     COUNTERS
